@@ -13,8 +13,16 @@ for line in open(os.path.join(VERIF, "properties.jsonl")):
     for d in sorted(glob.glob(os.path.join(VERIF, "seeded", pid + "*"))):
         m = json.load(open(os.path.join(d, "meta.json")))
         prev.append(m.get("change", ""))
+    others = []
+    if int(rnd) >= 10:
+        for d in sorted(glob.glob(os.path.join(VERIF, "seeded", "C*_r[89]"))):
+            m = json.load(open(os.path.join(d, "meta.json")))
+            if m["property"] != pid:
+                others.append(m.get("change", "")[:150])
     text = "%s: %s\n\n%s\n\nQuantifier: %s" % (pid, p.get("title", ""), p.get("statement", ""), (p.get("quantifier") or {}).get("text", ""))
     ideas = "\n".join("    %d. %s" % (i + 1, c) for i, c in enumerate(prev))
+    if others:
+        ideas += "\n\nIdeas already used against OTHER properties of this crate in recent rounds (do not reuse their mechanism either):\n" + "\n".join("    - %s" % c for c in others)
     out = os.path.join(outroot, pid)
     os.makedirs(out, exist_ok=True)
     t = tmpl.replace("@WT@", wtp + pid).replace("@OUT@", out).replace("@PROP@", text).replace("@IDEAS@", ideas).replace("@N@", str(len(prev)))
